@@ -124,7 +124,9 @@ func (r *grammarOptimizer) optimize(expr0 Expression) Visitor {
 
 				// Combine CharClassMatcher with CharClassMatcher
 				// [ab] / [cd] => [abcd]
-				case cok0 && cok1 && c0.IgnoreCase == c1.IgnoreCase && c0.Inverted == c1.Inverted:
+				// (two inverted classes cannot be merged this way: [^a] / [^b] matches
+				// everything, [^ab] does not)
+				case cok0 && cok1 && c0.IgnoreCase == c1.IgnoreCase && !c0.Inverted && !c1.Inverted:
 					combined = true
 					c0.Chars = append(c0.Chars, c1.Chars...)
 					c0.Ranges = append(c0.Ranges, c1.Ranges...)
